@@ -297,7 +297,7 @@ pub fn builder_seeds(seed: u64) -> Vec<Seed> {
     for (n, kb, tr) in [(3usize, 1u16, false), (40, 1, true), (120, 4, false)] {
         push("EncodingFile", &format!("encoding-n{n}-p{kb}"), encoding_value(&mut rng, n, kb, tr).and_then(|f| f.build().ok()));
     }
-    for (ks, ob, n) in [(16u8, 4u8, 5usize), (16, 4, 171), (9, 4, 10), (16, 5, 10), (16, 6, 10), (4, 4, 300)] {
+    for (ks, ob, n) in [(16u8, 4u8, 5usize), (16, 4, 171), (9, 4, 10), (16, 5, 10), (16, 6, 10), (4, 4, 300), (9, 4, 200), (9, 4, 241), (9, 5, 500), (16, 6, 341)] {
         push("ArchiveIndex", &format!("index-k{ks}-o{ob}-n{n}"), archive_index_bytes(&mut rng, ks, ob, n));
     }
     for n in [5usize, 158] {
